@@ -192,6 +192,25 @@ func genTxProc(r *core.Rng, nstmts int) *txProc {
 			p.Units = append(p.Units, dml(false))
 		}
 	}
+	// a table created and another one updated shortly before the end: the final COMMIT has a created and an updated file to write
+	if nstmts > 0 && created < 2 && r.P(50) {
+		created++
+		name := fmt.Sprintf("n%d", created)
+		st.Tables = append(st.Tables, txTable{name, name + ".csv", []string{"id", "b"}})
+		p.Units = append(p.Units, fmt.Sprintf("CREATE TABLE `%s.csv` (id, b);\nINSERT INTO `%s` VALUES (1, 'late'), (2, 'table');", name, name), fmt.Sprintf("UPDATE `%s` SET %s = 'w' WHERE id = 1;", st.Tables[0].Name, st.Tables[0].Cols[1]))
+	}
+	// a temporary table changed, committed, changed again and rolled back: ROLLBACK returns it to the committed state
+	if nstmts > 0 && r.P(50) {
+		for _, t := range st.Tables {
+			if t.File == "" && len(t.Cols) > 1 {
+				p.Units = append(p.Units, fmt.Sprintf("UPDATE `%s` SET %s = 'kept';", t.Name, t.Cols[1]), dumpUnit(st, "c"), "COMMIT;")
+				committed = st.clone()
+				p.Units = append(p.Units, fmt.Sprintf("UPDATE `%s` SET %s = 'dropped';", t.Name, t.Cols[1]), fmt.Sprintf("DELETE FROM `%s` WHERE id = 1;", t.Name), "ROLLBACK;", dumpUnit(committed, "r"))
+				st = committed.clone()
+				break
+			}
+		}
+	}
 	// a table in a format without a header line loses all its records shortly before the end (about every other
 	// procedure that has one): the final COMMIT then has nothing to write for it and must either write that or fail as a whole
 	if nstmts > 0 {
